@@ -198,17 +198,17 @@ reader (Model/MessageSetReader.lean: readHeader / readMessageV2 / markRead / Bat
 exactly the token stream `truncate (allTokens items) k` of Spec/Layout.lean (complete tokens, then a token on which
 the next `read*` fails — with io.EOF / io.ErrUnexpectedEOF instead of errShortRead, which changes only how the batch
 *ends*, i.e. the part modelled by `fetchRead`, not which statements ran before).  Instantiating C02's
-`single_fetch_partial`: for every log layout made of v2 batches (plain or compressed, compaction holes, retained empty
-batches, gaps), every cut position k and every fetch offset, the decoder does not panic / desynchronise and hands out
+`single_fetch` (full since C02 round 2): for every well-formed log layout (v2 batches plain or compressed, v0/v1 messages
+and wrappers, compaction holes, retained empty batches, gaps; hypothesis `Safe`, which follows from the fetch contract), every cut position k and every fetch offset, the decoder does not panic / desynchronise and hands out
 exactly the completely received records at or after the fetch offset — a prefix of what was sent, never fabricated
 data.  v0/v1 message sets: observed by the driver on every cut only (as in C02). -/
 
 open KV.C02 in
-theorem fetch_cut_no_panic_v2 (items : List Item) (nb : Int) (hnb : 0 ≤ nb) (hwf : V2WF nb items)
-    (o hwm : Int) (ho : 0 ≤ o) (hne : hwm ≠ o) (k : Nat) (expired : Bool) :
+theorem fetch_cut_no_panic (items : List Item) (nb : Int) (hnb : 0 ≤ nb) (hwf : LWF nb items)
+    (o hwm : Int) (ho : 0 ≤ o) (hsafe : Safe o items) (hne : hwm ≠ o) (k : Nat) (expired : Bool) :
     (readAll .fixed expired o hwm (truncate (allTokens items) k)).2.2 ≠ .desync ∧
     (readAll .fixed expired o hwm (truncate (allTokens items) k)).1 = (contained items k).filter (fun r => o ≤ r.1) := by
-  have h := single_fetch_partial items nb hnb hwf o hwm ho hne (k : Int) expired
+  have h := single_fetch items nb hnb hwf o hwm ho hsafe hne (k : Int) expired
   have hk : ¬ ((k : Int) < 0) := by omega
   simp only [responseTokens, containedRecords, hk, if_false, Int.toNat_natCast] at h
   exact ⟨h.2.1, h.1⟩
